@@ -59,7 +59,7 @@ Definition applied_eqb (a b : applied) : bool :=
   Bool.eqb (ap_patched a) (ap_patched b) && (ap_slept a =? ap_slept b) &&
   Bool.eqb (ap_touched a) (ap_touched b) && Bool.eqb (ap_applied a) (ap_applied b).
 
-Definition cycle_of (l : plabel) : Z * Z := match l with PCycle a _ _ y _ => (a, y) | PRestart => (0, 0) end.
+Definition cycle_of (l : plabel) : Z * Z := match l with PCycle a _ _ y _ => (a, y) | _ => (0, 0) end.
 
 Fixpoint zz_list_eqb (a b : list (Z * Z)) : bool :=
   match a, b with
